@@ -164,43 +164,57 @@ CylIv(c, P, sq) ==
     ELSE IF P.dn < 0 THEN None
     ELSE Iv(RMk(P.nd * (-P.Bn - P.k * sq), P.D * P.An), RMk(P.nd * (-P.Bn + P.k * sq), P.D * P.An))
 
-(* part of the ray (t >= 0) inside the solid, for a given stand-in of the square root *)
-HitIv(c, ray, sq) ==
-    LET P == RayParts(c, ray)
-        I == Inter(SlabIv(c, P), CylIv(c, P, sq))
+(* part of the ray (t >= 0) inside the solid, for a given stand-in of the square root;        *)
+(* the ...P variants take the RayParts record so that it is computed once per case             *)
+HitIvP(c, P, sq) ==
+    LET I == Inter(SlabIv(c, P), CylIv(c, P, sq))
     IN IF I.kind = "none" THEN None
        ELSE LET lo == RMax(I.lo, RZero) IN IF RLt(lo, I.hi) THEN Iv(lo, I.hi) ELSE None
+HitIv(c, ray, sq) == HitIvP(c, RayParts(c, ray), sq)
+(* closed version: a single touching point (lo = hi) is kept *)
+ClosedHitP(c, P, sq) ==
+    LET I == Inter(SlabIv(c, P), CylIv(c, P, sq))
+    IN IF I.kind = "none" THEN None
+       ELSE LET lo == RMax(I.lo, RZero) IN IF RLe(lo, I.hi) THEN Iv(lo, I.hi) ELSE None
 LenOf(I) == IF I.kind = "none" THEN RZero ELSE RSub(I.hi, I.lo)
 
-SqLo(c, ray) == LET P == RayParts(c, ray) IN IF P.dn < 0 THEN 0 ELSE Isqrt(P.dn)
-SqHi(c, ray) == LET P == RayParts(c, ray) IN
-                IF P.dn < 0 THEN 0 ELSE IF IsSquare(P.dn) THEN Isqrt(P.dn) ELSE Isqrt(P.dn) + 1
+SqLoP(P) == IF P.dn < 0 THEN 0 ELSE Isqrt(P.dn)
+SqHiP(P) == IF P.dn < 0 THEN 0 ELSE LET r == Isqrt(P.dn) IN IF Sq(r) = P.dn THEN r ELSE r + 1
+SqLo(c, ray) == SqLoP(RayParts(c, ray))
+SqHi(c, ray) == SqHiP(RayParts(c, ray))
 (* the length is rational exactly when the discriminant is a perfect square (or plays no role) *)
-ExactCase(c, ray) == LET P == RayParts(c, ray) IN P.An = 0 \/ P.dn < 0 \/ IsSquare(P.dn)
-PathLength(c, ray) == LenOf(HitIv(c, ray, SqLo(c, ray)))          \* meaningful when ExactCase
-InnerIv(c, ray) == HitIv(c, ray, SqLo(c, ray))
-OuterIv(c, ray) == HitIv(c, ray, SqHi(c, ray))
+ExactP(P) == P.An = 0 \/ P.dn < 0 \/ IsSquare(P.dn)
+ExactCase(c, ray) == ExactP(RayParts(c, ray))
+InnerIv(c, ray) == LET P == RayParts(c, ray) IN HitIvP(c, P, SqLoP(P))
+OuterIv(c, ray) == LET P == RayParts(c, ray) IN HitIvP(c, P, SqHiP(P))
+PathLength(c, ray) == LenOf(InnerIv(c, ray))                       \* meaningful when ExactCase
 
 (* measure-zero configurations in which the length is a discontinuous function of the inputs   *)
 (* (ray inside a cap plane; ray along the lateral surface): excluded from every comparison     *)
-Grazing(c, ray) ==
-    LET P == RayParts(c, ray)
-    IN \/ (P.NA = 0 /\ (P.WA = 0 \/ P.WA = c.h * P.D * P.k))
-       \/ (P.An = 0 /\ P.Cs = 0)
+GrazingP(c, P) ==
+    \/ (P.NA = 0 /\ (P.WA = 0 \/ P.WA = c.h * P.D * P.k))
+    \/ (P.An = 0 /\ P.Cs = 0)
+Grazing(c, ray) == GrazingP(c, RayParts(c, ray))
 
 (* classes of rays.  "undecided": the integer bounds of the square root do not settle whether  *)
 (* the ray meets the solid (only possible for irrational roots).                               *)
+ClassP(c, ray, P, inner, outer) ==
+    IF P.An = 0 THEN (IF inner.kind = "iv" THEN "parallel_hit" ELSE "parallel_miss")
+    ELSE IF P.dn = 0 THEN "tangent"
+    ELSE IF P.dn < 0 THEN "miss_line"
+    ELSE IF inner.kind = "iv" THEN (IF Inside(c, ray.s) THEN "from_inside" ELSE "from_outside")
+    ELSE IF outer.kind = "none" THEN "miss_solid"
+    ELSE "undecided"
 RayClass(c, ray) ==
     LET P == RayParts(c, ray)
-        inner == InnerIv(c, ray)
-        outer == OuterIv(c, ray)
-        start == Inside(c, ray.s)
-    IN IF P.An = 0 THEN (IF inner.kind = "iv" THEN "parallel_hit" ELSE "parallel_miss")
-       ELSE IF P.dn = 0 THEN "tangent"
-       ELSE IF P.dn < 0 THEN "miss_line"
-       ELSE IF inner.kind = "iv" THEN (IF start THEN "from_inside" ELSE "from_outside")
-       ELSE IF outer.kind = "none" THEN "miss_solid"
-       ELSE "undecided"
+    IN ClassP(c, ray, P, HitIvP(c, P, SqLoP(P)), HitIvP(c, P, SqHiP(P)))
+(* everything about one ray, computed once *)
+RaySummary(c, ray) ==
+    LET P == RayParts(c, ray)
+        inner == HitIvP(c, P, SqLoP(P))
+        outer == HitIvP(c, P, SqHiP(P))
+    IN [cls |-> ClassP(c, ray, P, inner, outer), exact |-> ExactP(P), len |-> LenOf(inner),
+        grazing |-> GrazingP(c, P), inner |-> inner, closedOuter |-> ClosedHitP(c, P, SqHiP(P))]
 RayClasses == {"from_inside", "from_outside", "parallel_hit", "parallel_miss", "tangent",
                "miss_line", "miss_solid"}
 ZeroClasses == {"parallel_miss", "tangent", "miss_line", "miss_solid"}
